@@ -9,6 +9,7 @@ VC = "verde.vector"
 TARGETS = [SP + ":greens_func_numpy", SP + ":predict_numpy", SP + ":jacobian_numpy", SP + ":Spline.predict", SP + ":Spline.jacobian"]
 TARGETS += ["verde.trend:polynomial_power_combinations", "verde.trend:Trend.jacobian", "verde.trend:Trend.predict", "verde.synthetic:CheckerBoard.predict", "verde.scipygridder:_BaseScipyGridder.fit", "verde.scipygridder:_BaseScipyGridder.predict"]
 TARGETS += [VC + ":greens_func_2d", VC + ":predict_2d_numpy", VC + ":jacobian_2d_numpy", VC + ":VectorSpline2D.predict", VC + ":VectorSpline2D.jacobian"]
+TARGETS += ["contracts.spline_c03:large_prediction"]  # bounded only: sizes with queries x forces beyond 1e7
 MIN_OBLIGATIONS = {"quick": 30, "thorough": 30}
 EXPLANATION = (
     "Each analytic model is proved equal to its documented formula for ALL inputs over the reals: the biharmonic Green's function "
